@@ -53,6 +53,13 @@ MUTANTS += [
     ("replace_swapped_branches", TR, "        elif regen_params:\n            new_tree.sources = grammar.derive_sources(new_tree)", "        elif regen_params:\n            new_tree.set_children(grammar.derive_generator_output(new_tree))", "replace_multiple"),
 ]
 
+IP = "src/fandango/language/grammar/parser/iterative_parser.py"
+MUTANTS += [
+    ("collapse_keeps_helpers", IP, ("def _collapse(", "            if str(tree.symbol.value()).startswith(\"<__\"):\n                return reduced\n"), "            pass\n", "IterativeParser._collapse"),
+    ("collapse_skips_recursion", IP, ("def _collapse(", "            rec_reduced = self._collapse(child)\n            reduced.extend(rec_reduced)"), "            reduced.append(child)", "IterativeParser._collapse"),
+    ("collapse_wrong_prefix", IP, ("def _collapse(", 'startswith("<__")'), 'startswith("<___")', "IterativeParser._collapse"),
+]
+
 # harmless edits: must NOT fail an obligation (verified or undecided are both acceptable, an alarm is not)
 EQUIVALENT = [
     ("eq_terminal_named_leaf", N + "terminal.py", "                parent.add_child(DerivationTree(self.symbol))\n", "                leaf = DerivationTree(self.symbol)\n                parent.add_child(leaf)\n", "TerminalNode.fuzz"),
